@@ -110,10 +110,18 @@ type dataset struct {
 	TwoFamilies bool `json:"twoFamilies"`
 	// Wide: the first metric has 40-70 series over 30 hosts, so that `group by host` has more groups than
 	// the default limit (20) of a query and (with a second tag key) the series of a host live in several shards
-	Wide    bool        `json:"wide,omitempty"`
-	Metrics []metricDef `json:"metrics"`
-	Series  []seriesDef `json:"series"`
-	Batches [][]point   `json:"batches"` // ingestion requests in order
+	Wide bool `json:"wide,omitempty"`
+	// OddTagValues: some tag values contain ',' or a backslash
+	OddTagValues bool        `json:"oddTagValues,omitempty"`
+	Metrics      []metricDef `json:"metrics"`
+	Series       []seriesDef `json:"series"`
+	Batches      [][]point   `json:"batches"` // ingestion requests in order
+	// Flushes: storage flushes (metadata, index, data families) placed after ingestion requests, the same under every
+	// layout (stored_test.go); none = every row stays in the memory databases
+	Flushes []flushSpec `json:"flushes,omitempty"`
+	// StoredKey = StoredValue: the tag condition the times of the first metric's series were shaped for (storeByShard)
+	StoredKey   string `json:"storedKey,omitempty"`
+	StoredValue string `json:"storedValue,omitempty"`
 }
 
 var fieldPool = []fieldDef{{"s1", tSum}, {"s2", tSum}, {"mn", tMin}, {"mx", tMax}, {"la", tLast}, {"fi", tFirst}}
@@ -125,7 +133,8 @@ func genDataset(t *rapid.T) *dataset { return genDatasetWith(t, dataOpt{}) }
 
 // dataOpt: ties = data made for `order by` (see genDatasetWith); skew = data made for fields that a storage node
 // never saw (skew_test.go): the first metric has >= 2 tag keys (complete tag sets), >= 2 fields and most of 6-12 series.
-type dataOpt struct{ ties, skew bool }
+// stored = data made for families that are partly on disk (stored_test.go): two data families, flushes between the requests.
+type dataOpt struct{ ties, skew, stored bool }
 
 // genDatasetWith: with ties set, the data set is made for `order by`: at least 5 series that mostly report every
 // field, and (3 of 4 data sets) values from {-1, 0, 1, 2, 3}, so that the sums / minima / maxima / counts / first and
@@ -135,9 +144,27 @@ func genDatasetWith(t *rapid.T, opt dataOpt) *dataset {
 	d := &dataset{}
 	smallValues := ties && rapid.IntRange(0, 3).Draw(t, "smallValues") > 0
 	// 1 of 8 data sets is wide (see dataset.Wide)
-	d.Wide = rapid.IntRange(0, 7).Draw(t, "wideDataset") == 0 && !skew
+	d.Wide = rapid.IntRange(0, 7).Draw(t, "wideDataset") == 0 && !skew && !opt.stored
+	// 1 of 4 data sets: some tag values contain the separator / escape characters of the group key a leaf sends
+	// (series/tag ConcatTagValues / SplitTagValues)
+	d.OddTagValues = rapid.IntRange(0, 3).Draw(t, "oddTagValues") == 0
+	odd := func(v string) string {
+		if d.OddTagValues {
+			switch v {
+			case "h6":
+				return "h,6"
+			case "h7":
+				return `h\7,`
+			case "zc":
+				return "z,c"
+			case "west":
+				return `we\st`
+			}
+		}
+		return v
+	}
 	nMetrics := rapid.SampledFrom([]int{1, 1, 1, 2, 2, 3}).Draw(t, "nMetrics")
-	if (d.Wide || skew) && nMetrics > 2 {
+	if (d.Wide || skew || opt.stored) && nMetrics > 2 {
 		nMetrics = 2
 	}
 	for m := 0; m < nMetrics; m++ {
@@ -149,7 +176,7 @@ func genDatasetWith(t *rapid.T, opt dataOpt) *dataset {
 		}
 		// half of the metrics have series with different tag key sets (legal: a series is its tag set)
 		md.Ragged = len(md.TagKeys) > 1 && rapid.Bool().Draw(t, "raggedTags")
-		if skew && m == 0 {
+		if (skew || opt.stored) && m == 0 {
 			if len(md.TagKeys) == 1 {
 				md.TagKeys = []string{"host", "zone"}
 			}
@@ -169,7 +196,7 @@ func genDatasetWith(t *rapid.T, opt dataOpt) *dataset {
 		d.Metrics = append(d.Metrics, md)
 	}
 	nSeries := 0
-	if skew {
+	if skew || opt.stored {
 		nSeries = rapid.IntRange(6, 12).Draw(t, "nSeries")
 	} else if ties {
 		nSeries = rapid.IntRange(5, 12).Draw(t, "nSeries")
@@ -192,7 +219,7 @@ func genDatasetWith(t *rapid.T, opt dataOpt) *dataset {
 			}
 		} else if s >= nMetrics {
 			m = rapid.IntRange(0, nMetrics-1).Draw(t, "seriesMetric")
-			if skew && rapid.IntRange(0, 3).Draw(t, "skewFirstMetric") > 0 {
+			if (skew || opt.stored) && rapid.IntRange(0, 3).Draw(t, "skewFirstMetric") > 0 {
 				m = 0
 			}
 		}
@@ -227,12 +254,12 @@ func genDatasetWith(t *rapid.T, opt dataOpt) *dataset {
 					}
 					tags[k] = fmt.Sprintf("h%02d", h)
 				} else {
-					tags[k] = fmt.Sprintf("h%d", rapid.IntRange(0, 7).Draw(t, "host"))
+					tags[k] = odd(fmt.Sprintf("h%d", rapid.IntRange(0, 7).Draw(t, "host")))
 				}
 			case "zone":
-				tags[k] = rapid.SampledFrom([]string{"za", "zb", "zc"}).Draw(t, "zone")
+				tags[k] = odd(rapid.SampledFrom([]string{"za", "zb", "zc"}).Draw(t, "zone"))
 			default:
-				tags[k] = rapid.SampledFrom([]string{"east", "west"}).Draw(t, "dc")
+				tags[k] = odd(rapid.SampledFrom([]string{"east", "west"}).Draw(t, "dc"))
 			}
 		}
 		key := md.Name + "|" + seriesKey(tags)
@@ -262,7 +289,7 @@ func genDatasetWith(t *rapid.T, opt dataOpt) *dataset {
 		}
 		d.Series = append(d.Series, sd)
 	}
-	twoFamilies := rapid.Bool().Draw(t, "twoFamilies")
+	twoFamilies := rapid.Bool().Draw(t, "twoFamilies") || opt.stored
 	d.TwoFamilies = twoFamilies
 	maxSlot := slotsPerCase/2 - 1
 	if twoFamilies {
@@ -603,7 +630,8 @@ func genCondLeaf(t *rapid.T, d *dataset, mi int, md metricDef) *cond {
 		// values the metric's series really carry
 		seen := map[string]bool{}
 		for _, sd := range d.Series {
-			if v, ok := sd.Tags[key]; ok && sd.Metric == mi && !seen[v] {
+			// (a backslash inside a string literal of a statement is the SQL grammar's business, not this property's)
+			if v, ok := sd.Tags[key]; ok && sd.Metric == mi && !seen[v] && !strings.Contains(v, "\\") {
 				seen[v] = true
 				pool = append(pool, v)
 			}
@@ -646,19 +674,22 @@ const (
 	// modeSkew: the statement of TestGroupByFieldsANodeNeverSaw (mostly `select *` from the first metric, grouped by
 	// tags, mostly no condition and the whole time range)
 	modeSkew
+	// modeStored: the statement of TestStoredFamiliesAndRequestBatching (mostly from the first metric, with the tag
+	// condition the data set was shaped for, mostly over the whole time range)
+	modeStored
 )
 
 // genQueryWith: orderMode = the statement of TestOrderByLayoutIndependence: a select list (no *), mostly grouped by
 // tags over the whole time range, always with an order by clause and a limit drawn around the number of groups.
 // Otherwise 1 of 5 grouped statements with a select list gets an order by clause (its limit clause stays as drawn).
 func genQueryWith(t *rapid.T, d *dataset, group string, mode queryMode) *querySpec {
-	orderMode, skew := mode == modeOrder, mode == modeSkew
+	orderMode, skew, stored := mode == modeOrder, mode == modeSkew, mode == modeStored
 	q := &querySpec{}
 	q.Metric = rapid.IntRange(0, len(d.Metrics)-1).Draw(t, "qMetric")
 	if rapid.IntRange(0, 19).Draw(t, "unknownMetric") == 0 {
 		q.Metric = -1
 	}
-	if skew && rapid.IntRange(0, 4).Draw(t, "skewFirstMetric") > 0 {
+	if (skew || stored) && rapid.IntRange(0, 4).Draw(t, "skewFirstMetric") > 0 {
 		q.Metric = 0
 	}
 	var md metricDef
@@ -725,6 +756,12 @@ func genQueryWith(t *rapid.T, d *dataset, group string, mode queryMode) *querySp
 	if skew && rapid.IntRange(0, 2).Draw(t, "skewNoCond") > 0 {
 		q.Cond = nil
 	}
+	if sc := d.storedCond(); stored && q.Metric == 0 && sc != nil && rapid.IntRange(0, 3).Draw(t, "storedCond") > 0 {
+		q.Cond = sc
+		if rapid.IntRange(0, 4).Draw(t, "storedCondAnd") == 0 {
+			q.Cond = &cond{Op: "and", L: sc, R: genCondLeaf(t, d, q.Metric, md)}
+		}
+	}
 	if q.Cond != nil {
 		q.CondText = q.Cond.text()
 	}
@@ -747,7 +784,7 @@ func genQueryWith(t *rapid.T, d *dataset, group string, mode queryMode) *querySp
 	default: // nothing was written there
 		q.StartS, q.EndS = -3600, -3000
 	}
-	if (orderMode || skew) && rapid.IntRange(0, 2).Draw(t, "orderWholeRange") > 0 {
+	if (orderMode || skew || stored) && rapid.IntRange(0, 2).Draw(t, "orderWholeRange") > 0 {
 		q.StartS, q.EndS = -60, 420
 	}
 	q.Interval = rapid.SampledFrom([]int{0, 0, 10, 20, 30, 60, 300}).Draw(t, "interval")
@@ -875,11 +912,13 @@ func evalModelOn(d *dataset, q *querySpec, only func(series int) bool) *modelOut
 			items = append(items, selItem{Field: f.Name})
 		}
 	}
-	contributors := map[cell]map[[2]int64]bool{} // (series, family) pairs feeding a cell
+	// (series, family, flush epoch of the family) triples feeding a cell: the points of one series in one family that
+	// were written before and after a flush of the family are merged from a file and a memory database (or two files)
+	contributors := map[cell]map[[3]int64]bool{}
 	feeds := map[cell][]feed{}
 	aggs := map[cell]string{}
 	matched := map[int]bool{}
-	for _, b := range d.Batches {
+	for bi, b := range d.Batches {
 		for _, p := range b {
 			sd := d.Series[p.Series]
 			if sd.Metric != q.Metric {
@@ -928,9 +967,9 @@ func evalModelOn(d *dataset, q *querySpec, only func(series int) bool) *modelOut
 				aggs[c] = md.Fields[fi].Type.aggOf(it.Func)
 				feeds[c] = append(feeds[c], feed{slotStart, v})
 				if contributors[c] == nil {
-					contributors[c] = map[[2]int64]bool{}
+					contributors[c] = map[[3]int64]bool{}
 				}
-				contributors[c][[2]int64{int64(p.Series), floorDiv(p.ts(), 3600_000)}] = true
+				contributors[c][[3]int64{int64(p.Series), floorDiv(p.ts(), 3600_000), int64(d.flushEpoch(bi, p.ts()))}] = true
 			}
 		}
 	}
